@@ -700,26 +700,44 @@ class Explorer:
     def note(self, **kw):
         self.info.update(kw)
 
-    def check(self, cond, what="assertion"):
-        """Obligation: under the current path condition `cond` must hold."""
+    def check(self, cond, what="assertion", model=None):
+        """Obligation: under the current path condition `cond` must hold.
+        `model`: explicit witness values (used when the harness itself knows a distinguishing input)."""
         self.stats['checks'] += 1
         self.reached_flag = True
         if isinstance(cond, _Sym):
-            t = _bterm(cond)
+            t = z3.simplify(_bterm(cond))
+            if z3.is_true(t): return
+            m = self.model
             if self._check(z3.Not(t)):
-                self._violation(what)
-            self._add(t)
-            if not self._check(): raise _Abort()   # violated on the whole path
+                self._violation(what, model)
+                self._add(t)
+                if not self._check(): raise _Abort()   # violated on the whole path
+            else:
+                self.model = m
+                self._add(t)
         elif not cond:
             if not self._check(): raise _Abort()
-            self._violation(what)
+            self._violation(what, model)
             raise _Abort()
 
-    def fail(self, what):
-        self.check(False, what)
+    def fail(self, what, model=None):
+        self.check(False, what, model=model)
 
-    def _violation(self, what):
-        model = self._model()
+    def valid(self, cond):
+        """True iff `cond` holds for every assignment satisfying the path condition (no fork)."""
+        if isinstance(cond, _Sym):
+            t = z3.simplify(_bterm(cond))
+            if z3.is_true(t): return True
+            if z3.is_false(t): return False
+            m = self.model
+            r = not self._check(z3.Not(t))
+            self.model = m
+            return r
+        return bool(cond)
+
+    def _violation(self, what, model=None):
+        if model is None: model = self._model()
         v = dict(what=what, model=model, choices=dict(self.choices), info=dict(self.info))
         self.violations.append(v)
 
@@ -865,11 +883,12 @@ class ConcreteSym:
     def assume(self, cond):
         if not cond: raise _Abort()
     def note(self, **kw): self.info.update(kw)
-    def check(self, cond, what="assertion"):
+    def check(self, cond, what="assertion", model=None):
         if not cond:
             self.failed.append(what)
             raise Violation(what)
-    def fail(self, what): self.check(False, what)
+    def fail(self, what, model=None): self.check(False, what)
+    def valid(self, cond): return bool(cond)
 
 def replay(harness, model, choices):
     """Re-run `harness` on plain values. Returns (reproduced: bool, description)."""
